@@ -92,3 +92,53 @@ pub fn simplify_case(cx: &mut Ctx, n: u64, case: &Value) {
         if ok { cx.ok("vw_polygon_ring_closed"); } else { cx.bad("C09", "vw_polygon_ring_closed", case, json!({"got": format!("{got:?}")})); }
     }
 }
+
+/// C09 on long inputs: record what simplify / simplify_vw (+ idx, + ring forms) return for seeded random lattice walks;
+/// Trace_Simplify.tla evaluates the property's postconditions exactly.  Nothing is judged here.
+pub fn record(w: &mut dyn std::io::Write, seed: u64, n_events: usize) {
+    use rand::{rngs::StdRng, Rng, SeedableRng};
+    let mut rng = StdRng::seed_from_u64(seed ^ 0xC09);
+    let eps_list: [(i64, i64); 9] = [(0, 1), (-1, 2), (1, 4), (1, 2), (1, 1), (3, 2), (5, 2), (7, 1), (100, 1)];
+    for k in 0..n_events {
+        let nv = match k % 5 { 0 => rng.gen_range(7..12), 1 => rng.gen_range(12..30), 2 => rng.gen_range(30..80), 3 => rng.gen_range(0..4), _ => rng.gen_range(7..20) };
+        let style = k % 4;
+        let mut cs: Vec<Coord<f64>> = vec![];
+        let (mut x, mut y) = (rng.gen_range(0..40i64), rng.gen_range(0..40i64));
+        for _ in 0..nv {
+            cs.push(Coord { x: x as f64, y: y as f64 });
+            match style {
+                0 => { x = (x + rng.gen_range(-3..=3)).clamp(0, 40); y = (y + rng.gen_range(-3..=3)).clamp(0, 40); }      // random walk (repeats, back-tracking)
+                1 => { x = (x + rng.gen_range(0..=3)).clamp(0, 40); y = (y + rng.gen_range(-1..=1)).clamp(0, 40); }       // nearly monotone, many collinear runs
+                2 => { x = rng.gen_range(0..40); y = rng.gen_range(0..40); }                                               // wild
+                _ => { x = (x + 1).clamp(0, 40); if rng.gen_range(0..6) == 0 { y = (y + rng.gen_range(-4..=4)).clamp(0, 40); } }   // flat with spikes
+            }
+        }
+        let closed = k % 3 == 0 && cs.len() >= 3;
+        if closed {
+            let f = cs[0];
+            cs.push(f);
+        }
+        let (en, ed) = eps_list[rng.gen_range(0..eps_list.len())];
+        let eps = en as f64 / ed as f64;
+        let ls = LineString::new(cs.clone());
+        let ints = |v: &[Coord<f64>]| -> Value { Value::Array(v.iter().map(|c| json!([c.x as i64, c.y as i64])).collect()) };
+        let idx1 = |v: Vec<usize>| -> Value { Value::Array(v.into_iter().map(|i| json!(i + 1)).collect()) };
+        let r = guard(|| {
+            let rdp = ls.simplify_idx(eps);
+            let vw = ls.simplify_vw_idx(eps);
+            let rdp_cs = ls.simplify(eps).0;
+            let vw_cs = ls.simplify_vw(eps).0;
+            let (ring_rdp, ring_vwp) = if closed {
+                (Polygon::new(ls.clone(), vec![]).simplify(eps).exterior().0.clone(), Polygon::new(ls.clone(), vec![]).simplify_vw_preserve(eps).exterior().0.clone())
+            } else { (vec![], vec![]) };
+            (rdp, vw, rdp_cs, vw_cs, ring_rdp, ring_vwp)
+        });
+        let ev = match r {
+            Ok((rdp, vw, rdp_cs, vw_cs, ring_rdp, ring_vwp)) => json!({"cs": ints(&cs), "eps": [en, ed], "closed": closed, "rdp": idx1(rdp), "vw": idx1(vw),
+                "rdp_cs": ints(&rdp_cs), "vw_cs": ints(&vw_cs), "ring_rdp": ints(&ring_rdp), "ring_vwp": ints(&ring_vwp), "st": "ok"}),
+            Err(e) => json!({"cs": ints(&cs), "eps": [en, ed], "closed": closed, "rdp": [], "vw": [], "rdp_cs": [], "vw_cs": [], "ring_rdp": [], "ring_vwp": [], "st": format!("panic: {e}")}),
+        };
+        writeln!(w, "{ev}").unwrap();
+    }
+    w.flush().unwrap();
+}
